@@ -193,7 +193,7 @@ def chain(ctx: Ctx, M):
 
 def main(ctx: Ctx):
     ctx.lean_gate()
-    n = 250 if ctx.tier == "quick" else 6000
+    n = 250 if ctx.tier == "quick" else 25000
     for i in range(n):
         one_program(ctx, random_program(ctx.rng))
         if i % 3 == 0:
